@@ -166,42 +166,49 @@ def impl_inv2d(wave, mode, yl, yh):
 
 
 def ref_inv2d(wave, mode, yl, yh):
+    """yl (P,h,w); yh list (finest first) of (P,3,h,w)."""
     J = len(yh)
     co = [yl]
     for j in range(J):
         h = yh[J - 1 - j]
-        co.append((h[:, :, 0], h[:, :, 1], h[:, :, 2]))
+        co.append((h[:, 0], h[:, 1], h[:, 2]))
     return pywt.waverec2(co, wave, mode=mode, axes=(-2, -1))
 
 
-def pyramid_basis_1d(shapes):
-    """Complete basis over every coefficient of every band. shapes: [n_low, n_h1(finest) ... n_hJ].
-    Returns (yl, yh list) with leading dim P = total number of coefficients."""
-    P = int(sum(shapes))
+def band_basis(shapes, r0=0, r1=None):
+    """Rows r0:r1 of the complete basis over the concatenation of bands with the given per-item shapes.
+    Returns a list of arrays (r1-r0, 1) + shape, one per band."""
+    sizes = [int(np.prod(sh)) for sh in shapes]
+    P = int(sum(sizes))
+    r1 = P if r1 is None else min(r1, P)
     out = []
     off = 0
-    for n in shapes:
-        b = np.zeros((P, 1, n))
-        for i in range(n):
-            b[off + i, 0, i] = 1.0
-        off += n
-        out.append(b)
-    return out[0], out[1:]
-
-
-def pyramid_basis_2d(lshape, hshapes):
-    """lshape (h,w); hshapes list (finest first) of (h,w) -> yl (P,1,h,w), yh list of (P,1,3,h,w)."""
-    P = int(lshape[0] * lshape[1] + sum(3 * h * w for h, w in hshapes))
-    yl = np.zeros((P, 1) + tuple(lshape))
-    off = 0
-    n = lshape[0] * lshape[1]
-    yl.reshape(P, -1)[np.arange(n), np.arange(n)] = 1.0
-    off = n
-    yh = []
-    for (h, w) in hshapes:
-        b = np.zeros((P, 1, 3, h, w))
-        m = 3 * h * w
-        b.reshape(P, -1)[off + np.arange(m), np.arange(m)] = 1.0
+    for sh, m in zip(shapes, sizes):
+        b = np.zeros((r1 - r0, m))
+        lo, hi = max(r0, off), min(r1, off + m)
+        if hi > lo:
+            rows = np.arange(lo, hi)
+            b[rows - r0, rows - off] = 1.0
         off += m
-        yh.append(b)
-    return yl, yh
+        out.append(b.reshape((r1 - r0, 1) + tuple(sh)))
+    return out
+
+
+def pyramid_size_1d(shapes):
+    return int(sum(shapes))
+
+
+def pyramid_basis_1d(shapes, r0=0, r1=None):
+    """shapes: [n_low, n_h1(finest) ... n_hJ] -> (yl, [yh...]) rows r0:r1 of the complete coefficient basis."""
+    b = band_basis([(n,) for n in shapes], r0, r1)
+    return b[0], b[1:]
+
+
+def pyramid_size_2d(lshape, hshapes):
+    return int(lshape[0] * lshape[1] + sum(3 * h * w for h, w in hshapes))
+
+
+def pyramid_basis_2d(lshape, hshapes, r0=0, r1=None):
+    """lshape (h,w); hshapes list (finest first) of (h,w) -> yl (p,1,h,w), yh list of (p,1,3,h,w)."""
+    b = band_basis([tuple(lshape)] + [(3, h, w) for h, w in hshapes], r0, r1)
+    return b[0], b[1:]
